@@ -83,18 +83,28 @@ func judge(c Case, w *vkit.W) {
 		if out, err := size.DefaultFormatter(scratch[:0], s, f.flag); err != nil || string(out) != f.want {
 			w.Fail(c, "rendering", fmt.Sprintf("DefaultFormatter(buffer with spare capacity, %d, %d) = %q, %v; want %q", c.S, f.flag, out, err, f.want))
 		}
-		if out, err := size.DefaultFormatter(append(scratch[:0], "n=7"...), s, f.flag); err != nil || string(out) != "n=7"+f.want {
-			w.Fail(c, "rendering", fmt.Sprintf("DefaultFormatter(\"n=7\", %d, %d) = %q, %v; want %q", c.S, f.flag, out, err, "n=7"+f.want))
+		for _, prefix := range []string{"n=7", "5 MiB / ", "a&nbsp;b 1 000 "} {
+			if out, err := size.DefaultFormatter(append(scratch[:0], prefix...), s, f.flag); err != nil || string(out) != prefix+f.want {
+				w.Fail(c, "rendering", fmt.Sprintf("DefaultFormatter(%q, %d, %d) = %q, %v; want %q", prefix, c.S, f.flag, out, err, prefix+f.want))
+			}
 		}
 	}
-	if got := s.String(); got != plain {
-		w.Fail(c, "rendering", fmt.Sprintf("Size(%d).String() = %q want %q", c.S, got, plain))
+	gotS, gotP, gotH := s.String(), s.PrettyString(), string(s.PrettyHTML())
+	if gotS != plain {
+		w.Fail(c, "rendering", fmt.Sprintf("Size(%d).String() = %q want %q", c.S, gotS, plain))
 	}
-	if got := s.PrettyString(); got != pretty {
-		w.Fail(c, "rendering", fmt.Sprintf("Size(%d).PrettyString() = %q want %q", c.S, got, pretty))
+	if gotP != pretty {
+		w.Fail(c, "rendering", fmt.Sprintf("Size(%d).PrettyString() = %q want %q", c.S, gotP, pretty))
 	}
-	if got := string(s.PrettyHTML()); got != html {
-		w.Fail(c, "rendering", fmt.Sprintf("Size(%d).PrettyHTML() = %q want %q", c.S, got, html))
+	if gotH != html {
+		w.Fail(c, "rendering", fmt.Sprintf("Size(%d).PrettyHTML() = %q want %q", c.S, gotH, html))
+	}
+	// results are kept (as returned) until the next size has been rendered: they must not change under the caller
+	w.Retain(c, "String", gotS, plain)
+	w.Retain(c, "PrettyString", gotP, pretty)
+	w.Retain(c, "PrettyHTML", gotH, html)
+	if fb, err := size.DefaultFormatter(nil, s, size.FormatPretty); err == nil {
+		w.RetainBytes(c, "DefaultFormatter(nil)", fb, pretty)
 	}
 	if got := s.BytesString(); got != strconv.FormatUint(c.S, 10) {
 		w.Fail(c, "bytes-string", fmt.Sprintf("Size(%d).BytesString() = %q", c.S, got))
